@@ -1,3 +1,4 @@
 # extra patch target that bound the connector functions with from-imports before patching
 from snowflake.connector import connect  # noqa: F401
 from snowflake.connector.pandas_tools import write_pandas  # noqa: F401
+from snowflake.connector import connect as sf_connect  # noqa: E402, F401  (the same function under another name)
